@@ -145,7 +145,23 @@ static void probe_tpdo(const char *when)
     if (!clean(p)) return;
     if (OBS.ntx != 1 || OBS.tx[0].id != (p->cob & 0x7FF)) { mc_fail("pdo-activation-differs", "%s: trigger of the valid TPDO produced %d frame(s) (first id %03X), expected one on %03X", when, OBS.ntx, OBS.ntx ? OBS.tx[0].id : 0, p->cob & 0x7FF); return; }
     for (int s = 1; s <= p->count; s++) { uint32_t m = entry(p, s), v = m == M8 ? P8 : m == M16 ? P16 : m == M32 ? P32 : m == RO32 ? R32 : W32; int w = (int)(m & 0xFF) >> 3; for (int b = 0; b < w; b++) d[pos++] = (uint8_t)(v >> (8 * b)); }
-    if (OBS.tx[0].dlc != want || memcmp(OBS.tx[0].d, d, (size_t)want)) { char a[40]; w_fmt_frame(a, sizeof a, &OBS.tx[0]); mc_fail("pdo-activation-differs", "%s: TPDO frame %s does not carry the stored mapping (%d bytes: %02X %02X %02X %02X ...)", when, a, want, d[0], d[1], d[2], d[3]); }
+    if (OBS.tx[0].dlc != want || memcmp(OBS.tx[0].d, d, (size_t)want)) { char a[40]; w_fmt_frame(a, sizeof a, &OBS.tx[0]); mc_fail("pdo-activation-differs", "%s: TPDO frame %s does not carry the stored mapping (%d bytes: %02X %02X %02X %02X ...)", when, a, want, d[0], d[1], d[2], d[3]); return; }
+    /* the application's object trigger follows the stored mapping, too: an object that an EARLIER mapping of this TPDO held no longer sends it */
+    if (INHIBIT_CFG) return;
+    {
+        static const uint32_t OB[] = { M8, M32, RO32, WO32 };
+        for (unsigned k = 0; k < sizeof OB / sizeof OB[0]; k++) {
+            CO_OBJ *o = CODictFind(&Node.Dict, CO_DEV(OB[k] >> 16, (OB[k] >> 8) & 0xFF)); int mapped = 0, n;
+            if (!o) continue;
+            for (int sx = 1; sx <= p->count; sx++) if (entry(p, sx) == OB[k]) mapped++;       /* an object mapped k times: one transmission per link is tolerated (C12 decides the trigger rules) */
+            OBS.ntx = 0; OBS.ncb = 0;
+            COTPdoTrigObj(Node.TPdo, o);
+            n = nc_count_tx(p->cob & 0x7FF);
+            if (OBS.ntx != n) { mc_fail("pdo-activation-differs", "%s: COTPdoTrigObj(%04X:00) sends %d frame(s) of other PDOs", when, OB[k] >> 16, OBS.ntx - n); return; }
+            if ((mapped == 0 && n != 0) || (mapped > 0 && (n < 1 || n > mapped))) { mc_fail("pdo-activation-differs", "%s: COTPdoTrigObj(%04X:00) sends %d frame(s) of TPDO #%d, the stored mapping %s this object", when, OB[k] >> 16, n, PN, mapped ? "contains" : "does not contain"); return; }
+        }
+        OBS.ntx = 0; OBS.ncb = 0;
+    }
 }
 
 /* time passes after an activation (on a copy of the state): a TPDO activated with a synchronous type stays silent without SYNC, one
